@@ -942,3 +942,25 @@ Proof.
   destruct (inc_iv iv) as [iv'|]; cbn [bind] in He; [|discriminate]. injection He as _ <-.
   exists iv'. auto.
 Qed.
+
+(* ---- write_all: the socket receives exactly the packet ---------------------------------- *)
+Theorem write_all_exact : forall evs out iters written,
+  (snd (write_all out iters evs written) = true -> fst (write_all out iters evs written) = written ++ out) /\
+  (exists t, written ++ out = fst (write_all out iters evs written) ++ t).
+Proof.
+  induction evs as [|e rest IH]; intros out iters written.
+  - destruct out; cbn [write_all fst snd]; rewrite ?app_nil_r; split; auto; exists []; now rewrite app_nil_r.
+  - destruct out as [|o0 out'].
+    { cbn [write_all fst snd]. rewrite app_nil_r. split; auto. exists []. now rewrite app_nil_r. }
+    set (out := o0 :: out') in *.
+    assert (Hpre : exists t, written ++ out = written ++ t) by (exists out; reflexivity).
+    destruct e as [k| | |]; cbn [write_all]; fold out.
+    + destruct (((k =? 0) && (10 <? iters)) || (k <? 0)); [cbn [fst snd]; split; [discriminate|exact Hpre]|].
+      destruct (k =? zlen out); [cbn [fst snd]; split; [reflexivity|exists []; now rewrite app_nil_r]|].
+      set (n := Z.to_nat (Z.min k (zlen out))).
+      destruct (IH (skipn n out) (iters + 1) (written ++ firstn n out)) as [A B].
+      rewrite <- app_assoc, firstn_skipn in A, B. auto.
+    + apply IH.
+    + apply IH.
+    + cbn [fst snd]. split; [discriminate|exact Hpre].
+Qed.
